@@ -125,6 +125,7 @@ def _run_history(ld, kind, n, keyed, ops, tmp, shape='dict'):
     handles = []
     outs = []
     cp = None
+    pcopy = [None]
     with warnings.catch_warnings():
         warnings.simplefilter('ignore')
         done_in_loop = set()
@@ -159,6 +160,11 @@ def _run_history(ld, kind, n, keyed, ops, tmp, shape='dict'):
                         cp = ds.copy()
                         ex = cp[i]
                     elif path == 'listidx': ex = list(ds[[i]])[0]
+                    elif path in ('samecopy', 'samecopy_iter', 'samecopy_frozen'):
+                        # ONE copy of the dataset that lives through the whole history and is read again and again
+                        if pcopy[0] is None:
+                            pcopy[0] = ds.copy(freeze=(path == 'samecopy_frozen'))
+                        ex = pcopy[0][i] if path != 'samecopy_iter' else list(pcopy[0])[i]
                     handles.append(ex)
                     outs.append(('val', content(ex)))
                 except (IndexError, KeyError):
@@ -171,7 +177,7 @@ def _run_history(ld, kind, n, keyed, ops, tmp, shape='dict'):
                 if op[1] < len(originals):
                     mutate(originals[op[1]], op[2])
                 outs.append(('none',))
-    del ds, cp
+    del ds, cp, pcopy
     gc.collect()
     return outs
 
@@ -262,7 +268,7 @@ def run(tier):
         for _ in range(r.randint(2, 12)):
             x = r.random()
             if x < 0.5 or nh == 0:
-                paths = ['idx', 'neg', 'np', 'iter', 'slice', 'copy', 'listidx'] + (['key', 'items'] if keyed else [])
+                paths = ['idx', 'neg', 'np', 'iter', 'slice', 'copy', 'listidx', 'samecopy', 'samecopy', 'samecopy_iter', 'samecopy_frozen'] + (['key', 'items'] if keyed else [])
                 pth = r.choice(paths)
                 if r.random() < 0.2:
                     pth = 'itemslive' if keyed and r.random() < 0.4 else 'iterlive'
